@@ -5,6 +5,7 @@ import Pangaea.Drv.C15
 import Pangaea.Drv.C04
 import Pangaea.Drv.C02
 import Pangaea.Drv.C16
+import Pangaea.Drv.C17
 
 def dispatch (line : String) : String :=
   let toks := (line.trimAscii.toString.splitOn " ").filter (· ≠ "")
@@ -16,6 +17,7 @@ def dispatch (line : String) : String :=
     | "C04" :: rest => Pangaea.Drv.C04.handle rest
     | "C02" :: rest => Pangaea.Drv.C02.handle rest
     | "C16" :: rest => Pangaea.Drv.C16.handle rest
+    | "C17" :: rest => Pangaea.Drv.C17.handle rest
     | _ => ("bad-op", "bad-op")
   r.1 ++ "\t" ++ r.2
 
